@@ -57,13 +57,26 @@ def main():
         print('19 agents x %d restructurings in the same styles, each with a demonstration and a differential run against the clean tree. %d of the %d are reported by any' % (len(rf) // 19, len([v for v in viol if not v.endswith('-fixed')]), len(rf)))
         print('check; %d leave at least one undecided clause in some check (listed per patch in `seeded/<id>/meta.json`, field `all_19_checks`): that is the price of' % len([u for u in und if not u.endswith('-fixed')]))
         print('"unrecognised shape => undecided" - a restructured module is mostly *not read* by the rules anchored in it, and says so.\n')
+    # round 6: refactorings only, aimed at the rules added in rounds 4-5
+    D, own, other, none, P, viol, und = figures(6)
+    print('### 10.11 Round 6, behaviour-preserving changes aimed at the newest rules (%d)\n' % len(P))
+    print('The hygiene scans and memo rules of 9.1-26..29 each encode "this idiom, written this way, is wrong". A last round of 19 agents x 2 was asked for restructurings')
+    print('that use the SAME idioms in their correct form: `groupby` over input sorted by the same key, parallel lists built and filtered together and zipped,')
+    print('`any()` over pure tests, `functools.partial` binding immutable arguments, functions defined in loops with the loop variable bound as a default, memos')
+    print('keyed by every value they depend on, slots dropped by every setter of their inputs, `bisect_right` for "latest at or before", `Enum[name]`/`__members__`/')
+    print('`match`, `next(it, default)`, `math.isclose` with an explicit `abs_tol`. First run: 12 of the %d were reported somewhere - none by a hygiene scan; all by' % len(P))
+    print('older rules meeting a shape they did not read (a lazily filled slot dropped by its setters taken for history-dependent state, `scaled is vector` between')
+    print('two records left undecided and so an infeasible path, `dict(zip(keys, values))`, `[k for k, _ in groupby(sorted(xs))]` as the sorted distinct list,')
+    print('an Order that keeps its terms in a record, the history kept as columns, a loop fed by a generator wrapped around the clock). Each was closed as in')
+    print('9.1-26 (generalise the reading, or say UNDECIDED where the rule does not read). Current state: %d of the %d are reported by any check; %d leave an' % (len(viol), len(P), len(und)))
+    print('undecided clause somewhere.\n')
 
 
 def totals():
     """the one-line corpus figures of the DESIGN.md header"""
     nd = no = nother = 0
     npres = nviol = nund = 0
-    for rnd in (1, 2, 3, 4, 5):
+    for rnd in (1, 2, 3, 4, 5, 6):
         D, own, other, none, P, viol, und = figures(rnd)
         nd += len(D)
         no += len(own)
